@@ -1563,11 +1563,11 @@ class JobIntParameterDefinition(OpenJDModel_v2023_09):
                 )
         if self.allowedValues and value not in self.allowedValues:
             raise ValueError(f"Parameter {self.name} value ({value}) not in allowedValues.")
-        if self.minValue and value < self.minValue:
+        if self.minValue is not None and value < self.minValue:
             raise ValueError(
                 f"Value ({value}) for parameter {self.name} must be at least {self.minValue}."
             )
-        if self.maxValue and self.maxValue < value:
+        if self.maxValue is not None and self.maxValue < value:
             raise ValueError(
                 f"Value ({value}) for parameter {self.name} must be at most {self.maxValue}."
             )
@@ -1739,11 +1739,11 @@ class JobFloatParameterDefinition(OpenJDModel_v2023_09):
             raise ValueError(f"Value ({value}) for parameter {self.name} must be a finite number.")
         if self.allowedValues and value not in self.allowedValues:
             raise ValueError(f"Parameter {self.name} value ({value}) not in allowedValues.")
-        if self.minValue and value < self.minValue:
+        if self.minValue is not None and value < self.minValue:
             raise ValueError(
                 f"Value ({value}) for parameter {self.name} must be at least {self.minValue}."
             )
-        if self.maxValue and self.maxValue < value:
+        if self.maxValue is not None and self.maxValue < value:
             raise ValueError(
                 f"Value ({value}) for parameter {self.name} must be at most {self.maxValue}."
             )
